@@ -1,4 +1,4 @@
-(* PINNED copy (facts of the source as of the time the check was written); used only when T1 fails by translate/c13_facts.py -- do not edit *)
+(* PINNED copy of Gen/C13Facts.v (the facts of the source when the check was written); used only when T1 fails, so that the case files still compile *)
 From SF Require Import C13.Session.
 Definition gen_cfg : cfg := mkCfg true true true true NLower NLower true.
 (* session.sql: lookup key <table>.name; target = last CTE of the view's chain; CTE names already present are
